@@ -208,3 +208,21 @@ mod test {
         assert_eq!(&actual_compressed.unwrap(), &compressed);
     }
 }
+
+#[cfg(mila_verif)]
+pub mod verif_hooks {
+    //! Verification-build access to the private helpers of this module (wrappers only).
+    pub fn get_occurrence_length(
+        bytes: &[u8],
+        new_ptr: usize,
+        new_length: usize,
+        old_ptr: usize,
+        old_length: usize,
+    ) -> (i32, usize) {
+        super::get_occurrence_length(bytes, new_ptr, new_length, old_ptr, old_length)
+    }
+
+    pub fn calculate_lz13_header(bytes: &[u8]) -> super::Result<usize> {
+        super::calculate_lz13_header(bytes)
+    }
+}
